@@ -206,6 +206,13 @@ def call_lib(I, name, args, kwargs, node):
     if name in ("itertools.chain", "itertools.chain.from_iterable"):
         seqs = a if name == "itertools.chain" else I.iterate(a[0], node)
         return ListLit([x for s_ in seqs for x in I.iterate(s_, node)])
+    if name == "itertools.pairwise":
+        seq = a[0] if a else None
+        if len(a) == 1 and not kwargs and isinstance(seq, (ListLit, TupS)):
+            out = ListLit([TupS([x, y]) for x, y in zip(seq.elts, seq.elts[1:])])
+            out.pyname = "generator"
+            return out
+        return Top("itertools.pairwise of a sequence of unknown length", deps=I.leaves(seq) if seq is not None else ())
     if name == "itertools.accumulate":
         seq = a[0] if a else None
         if isinstance(seq, (ListLit, TupS)) and all(isinstance(x, Const) and isinstance(x.v, (int, float)) for x in seq.elts) and len(a) == 1 \
